@@ -14,6 +14,7 @@ import (
 
 	"hv/fw"
 	"hv/props/c12"
+	"hv/props/c13"
 )
 
 func main() {
@@ -25,6 +26,9 @@ func main() {
 	case "kflines":
 		// proposed `open:` lines for known_findings.txt (see props/c12/FINDINGS.md, props/c13/FINDINGS.md)
 		for _, f := range c12.ProposedFindings() {
+			fmt.Println(f.Line())
+		}
+		for _, f := range c13.ProposedFindings() {
 			fmt.Println(f.Line())
 		}
 	case "list":
